@@ -4,7 +4,7 @@
 -/
 namespace Cobweb.Sc
 
-inductive SKind | f | n | s
+inductive SKind | f | n | s | o
 deriving DecidableEq, Repr, Inhabited
 
 structure SCall where
@@ -123,6 +123,11 @@ def exec (p : SProg) : Nat → SSt → Task → SSt × Option Nat
         | none => st
       let r := runBody (exec p fuel) p st .n c.key c.key cnt c.input
       ({ r.1 with nstore := upd r.1.nstore c.key (some (some (cnt + 1))) }, some r.2)
+    | .o =>
+      -- `syscall_once`: the function of `syscall` key `c.key`, built and initialised afresh, run, and thrown away; the
+      -- cached system of the key is neither used nor touched
+      let r := runBody (exec p fuel) p st .f c.key c.key 0 c.input
+      (r.1, some r.2)
     | .s =>
       match st.sstore c.key with
       | none => (st, none)
